@@ -105,6 +105,21 @@ def untraced_writers():
     return sorted(out)
 
 
+def journal_mode(path=None):
+    """PRAGMA journal_mode as seen on the connection the opened store works with"""
+    from yowsup.axolotl.store.sqlite.liteaxolotlstore import LiteAxolotlStore
+    d = None
+    if path is None:
+        d = tempfile.mkdtemp(prefix="jm-", dir=os.environ.get("VERIF_SCRATCH"))
+        path = os.path.join(d, "axolotl.db")
+    store = LiteAxolotlStore(path)
+    conn = store.identityKeyStore.dbConn
+    mode = conn.execute("PRAGMA journal_mode").fetchone()[0]
+    mode = (mode.decode("ascii", "replace") if isinstance(mode, bytes) else str(mode)).lower()
+    conn.close()
+    return mode
+
+
 def generate():
     ops = trace_all()
     L = ["/- REGENERATED on every run by tracing every store API operation of yowsup/axolotl/store/sqlite/*.py",
@@ -114,5 +129,8 @@ def generate():
          "def storeOps : List (Nat × Nat × List Sk) := ["]
     L.append(",\n".join("  (%d, %d, [%s])" % (o, v, ", ".join(s for s in sk if s != ".rollback") ) for o, v, sk in ops))
     L += ["]", "", "/-- public methods of the store that write but are not among the traced operations (must be none) -/",
-          "def untracedWriters : List String := [%s]" % ", ".join('"%s"' % n for n in untraced_writers()), "end Yow.Gen", ""]
+          "def untracedWriters : List String := [%s]" % ", ".join('"%s"' % n for n in untraced_writers()), "",
+          "/-- the journal mode in force on the store's connection once the store is open (`PRAGMA journal_mode`): a transaction is all-or-nothing",
+          "    across a process death only while SQLite keeps its rollback journal (or write-ahead log) on disk -/",
+          "def journalMode : String := \"%s\"" % journal_mode(), "end Yow.Gen", ""]
     return "\n".join(L)
